@@ -21,7 +21,7 @@ type kv struct {
 	K string
 	V any
 }
-type omap []kv   // ordered map
+type omap []kv    // ordered map
 type rawmp []byte // pre-encoded msgpack bytes
 type mpbin []byte // bin8 value
 
